@@ -134,6 +134,18 @@ static void probe(void *vs)
           check_sequence(s, seq, n, "iterator", shape);
           if (n == s->n && SPIF_ITERATOR_NEXT(it)) FAIL(site("iterator"), "model:not-exhausted", shape, "next returned an element after exhaustion");
           SPIF_ITERATOR_DEL(it); } }
+    /* a copy of an iterator taken after k steps yields exactly the remaining n-k elements */
+    for (int k = 0; k <= s->n; k++) {
+        spif_iterator_t it = SPIF_VECTOR_ITERATOR(v); if (!it) break;
+        spif_obj_t seen[VMAX * MMAX + 4]; int ns = 0;
+        for (int j = 0; j < k && SPIF_ITERATOR_HAS_NEXT(it); j++) seen[ns++] = SPIF_ITERATOR_NEXT(it);
+        spif_iterator_t c = (spif_iterator_t) SPIF_ITERATOR_DUP(it);
+        if (!c || c == it) FAIL(site("iterator_dup"), "model:return", shape, "dup of an iterator returned %s", c ? "the iterator itself" : "NULL");
+        else { int got = 0, rep = 0; while (got <= s->n + 1 && SPIF_ITERATOR_HAS_NEXT(c)) { spif_obj_t g = SPIF_ITERATOR_NEXT(c); for (int q = 0; q < ns; q++) if (seen[q] == g) rep = 1; got++; }
+            if (got != s->n - k || rep) FAIL(site("iterator_dup"), "model:position", shape, "a copy taken after %d of %d steps yielded %d elements%s, expected %d", k, s->n, got, rep ? " (some for the second time)" : "", s->n - k);
+            SPIF_ITERATOR_DEL(c); }
+        SPIF_ITERATOR_DEL(it);
+    }
     { spif_vector_t d = (spif_vector_t) SPIF_VECTOR_DUP(v);
       if (!d || d == v) FAIL(site("dup"), "model:return", shape, "dup returned %s", d ? "self" : "NULL");
       else { if ((int) SPIF_VECTOR_COUNT(d) != s->n) FAIL(site("dup"), "model:count", shape, "dup count %d", (int) SPIF_VECTOR_COUNT(d));
@@ -221,6 +233,33 @@ static void big_case(uint64_t idx, void *ctx)
     mc_nontrivial();
     mc_outcome((uint64_t) n * 9 + (uint64_t) order * 3 + (uint64_t) cls);
 }
+/* ---- element classes: after vectors of strings have been searched in this process, vectors of buffers that differ only behind an embedded
+ * NUL byte, and of URLs, are filled and searched (the comparison belongs to the elements, not to the first vector that was searched) */
+static void mx_desc(uint64_t idx, void *ctx, char *b, size_t n) { (void) ctx; snprintf(b, n, "%s vector of %s: insert 4, find each and an absent one, remove one, find again (after a vector of strings was searched)", CN[idx % 3], idx / 3 ? "URLs" : "buffers that differ behind a NUL byte"); }
+static spif_obj_t mx_elem(int kind, int i)
+{
+    if (kind == 0) { unsigned char b[4] = { 'a', 0, (unsigned char) ('p' + i), 'z' }; return SPIF_OBJ(spif_mbuff_new_from_ptr(b, 4)); }
+    char t[32]; snprintf(t, sizeof t, "http://h%c/x", 'p' + i); return SPIF_OBJ(spif_url_new_from_ptr((spif_charptr_t) t));
+}
+static void mx_case(uint64_t idx, void *ctx)
+{
+    int kind = (int) (idx / 3); (void) ctx; CLS = (int) (idx % 3);
+    const char *shape = kind ? "elements of class url" : "elements of class mbuff"; mc_set_shape(shape);
+    { spif_vector_t sv = new_vec(); spif_obj_t p = S_("b"); SPIF_VECTOR_INSERT(sv, S_("b")); SPIF_VECTOR_INSERT(sv, S_("d")); (void) SPIF_VECTOR_FIND(sv, p); (void) SPIF_VECTOR_CONTAINS(sv, p); SPIF_OBJ_DEL(p); SPIF_VECTOR_DEL(sv); }
+    spif_vector_t v = new_vec(); spif_obj_t e[4]; static const int order[4] = { 2, 0, 3, 1 };
+    for (int k = 0; k < 4; k++) { e[order[k]] = mx_elem(kind, order[k]); SPIF_VECTOR_INSERT(v, e[order[k]]); }
+    for (int pass = 0; pass < 2; pass++) {
+        for (int i = 0; i < 4; i++) { spif_obj_t p = mx_elem(kind, i); spif_obj_t f = SPIF_VECTOR_FIND(v, p); int present = !(pass && i == 1);
+            if (present ? f != e[i] : f != NULL) FAIL(site("find"), "model:return", shape, "find(element %d) %s", i, present ? (f ? "returned another element" : "missed a stored element") : "returned an element that was removed");
+            if ((SPIF_VECTOR_CONTAINS(v, p) ? 1 : 0) != present) FAIL(site("contains"), "model:return", shape, "contains(element %d) is wrong", i);
+            SPIF_OBJ_DEL(p); }
+        { spif_obj_t p = mx_elem(kind, 9); if (SPIF_VECTOR_FIND(v, p)) FAIL(site("find"), "model:return", shape, "find of an absent element returned an element"); SPIF_OBJ_DEL(p); }
+        if (!pass) { spif_obj_t p = mx_elem(kind, 1); spif_obj_t r = SPIF_VECTOR_REMOVE(v, p); if (r != e[1]) FAIL(site("remove"), "model:return", shape, "remove did not hand back the equal element"); if (r) SPIF_OBJ_DEL(r); SPIF_OBJ_DEL(p); }
+    }
+    SPIF_VECTOR_DEL(v);
+    mc_nontrivial();
+    mc_outcome(idx);
+}
 int main(int argc, char **argv)
 {
     mc_init("C04", argc, argv);
@@ -237,6 +276,7 @@ int main(int argc, char **argv)
         mc_sys sys = { CN[CLS], NOPS, op_name, fresh, enabled, apply, probe, canon, teardown, (int) mc_arg_int("lookahead", 1) };
         mc_e1_run(&sys, (int) mc_arg_int("depth", 40));
     }
+    if (!only) mc_e2_level("element_classes", 1, 6, mx_case, mx_desc, NULL);
     if (!only) mc_e2_level("large", 513, (uint64_t) 3 * 3 * NBIGN, big_case, big_desc, NULL);
     return mc_finish();
 }
